@@ -26,7 +26,7 @@ def prop(pid, theorems, monitors, quick, thorough, **kw):
     P[pid] = dict(theorems=theorems, monitors=monitors, plan=dict(quick=quick, thorough=thorough), **kw)
 
 prop("C01",
-     ["C01_mutex", "C01_mutex_fine_grained", "C01_try_fails_while_held", "C01_failed_try_reports_none", "C01_wait_enqueues_while_held", "C01_waiter_blocked_while_held", "C01_witness"],
+     ["C01_mutex", "C01_mutex_fine_grained", "C01_try_fails_while_held", "C01_failed_try_reports_none", "C01_wait_enqueues_while_held", "C01_waiter_blocked_while_held", "C01_reacquisition_needs_release", "C01_witness"],
      ["C01."],
      [fam("nolimit","H",1500), fam("nolimit","L",1500), fam("pool","P",1000), fam("dfs-lock2","H",4000), fam("dfs-cancel","H",4000),
       fam("evict","L",800,"monitor"), fam("stream","H",800,"monitor"), fam("expiry","L",800,"monitor"), fam("fine-nolimit","H",1500), fam("fine-nolimit","L",1500), fam("wide","H",600)],
@@ -36,7 +36,7 @@ prop("C01",
      smoke=True,
      lin="locks")
 prop("C02",
-     ["C02_only_guard_ops_change_values", "C02_guard_op_is_local", "C02_new_guard_shows_stored_value", "C02_value_history", "C02_next_guard_sees_what_was_left", "C02_witness"],
+     ["C02_only_guard_ops_change_values", "C02_guard_op_is_local", "C02_new_guard_shows_stored_value", "C02_value_history", "C02_next_guard_sees_what_was_left", "C02_value_untouched_while_unlocked", "C02_witness"],
      ["C02."],
      [fam("nolimit","H",1500), fam("nolimit","L",1500), fam("dfs-lock2","L",4000), fam("evict","H",800,"monitor"), fam("stream","L",800,"monitor"), fam("mix","L",800,"monitor"), fam("scale","L",2,"monitor"), fam("fine-nolimit","L",2000), fam("fine-mix","H",2000), fam("wide","L",600)],
      [fam("nolimit","H",40000), fam("nolimit","L",40000), fam("dfs-lock2","L",80000), fam("dfs-lock3","H",80000), fam("evict","H",20000,"monitor"), fam("stream","L",20000,"monitor"), fam("mix","L",20000,"monitor"), fam("scale","L",16,"monitor"), fam("scale","H",16,"monitor"), fam("fine-nolimit","L",40000), fam("fine-nolimit","H",40000), fam("fine-mix","H",40000), fam("fine-mix","L",40000), fam("wide","L",20000), fam("wide-evict","H",20000)],
